@@ -1729,7 +1729,8 @@ Proof.
   - (* SyncDir *)
     destruct (nget (names t) p) as [[|i]|] eqn:En; cbn [fst snd is_err].
     + assert (Hd : dir_exists s p = true) by (rewrite (inv_dx _ _ _ HF); apply is_dir_iff; exact En).
-      destruct (InvF_sync_dir s t g p HF Hd Hqt) as [_ B]. unfold res. rewrite B. cbn [fst wfs].
+      assert (Hqt' := Hqt (proj2 (is_dir_iff t p) En)).
+      destruct (InvF_sync_dir s t g p HF Hd Hqt') as [_ B]. unfold res. rewrite B. cbn [fst wfs].
       replace (with_dw d t) with d by (symmetry; apply with_dw_id).
       apply Dur_sync_dir; assumption.
     + assert (Hd : dir_exists s p = false) by (rewrite (inv_dx _ _ _ HF); unfold is_dir; fold t; rewrite En; reflexivity).
